@@ -35,6 +35,14 @@ theorem specAgg_inv' {q : Select} {fields : List Field} {src out : List Row} {id
   · obtain ⟨hP, hC⟩ := specAgg_inv hgi hz hres hlen h
     exact ⟨hP, GroupConst.of_plain_avg hC havg⟩
 
+/-- a query that groups and has a reference meaning does not start its select list with `*` -/
+theorem meaning_groups_nostar {fetch : Bytes → Option Table} {q : Select} {want : List Row}
+    (hg : groups q = true) (hm : Spec.meaning fetch q = some want) : isStar q.list = false := by
+  obtain ⟨tr, src, fields, hf, hfr⟩ := meaning_some_from hm
+  rw [meaning_of hf hfr] at hm
+  obtain ⟨filtered, _, hst⟩ := option_bind_some.1 hm
+  exact specTail_groups_nostar ((groups_iff q).1 hg) hst
+
 /-- **one table, aggregates / GROUP BY: what the executor answers is the meaning**, exactly (same
 groups in the same order), when everything but the COUNTs is constant on each group -/
 theorem agg_single_result {fetch : Bytes → Option Table} {q : Select} {t : TableName}
@@ -49,7 +57,7 @@ theorem agg_single_result {fetch : Bytes → Option Table} {q : Select} {t : Tab
       (∀ a ∈ want, ∀ b ∈ want, KeyComparable keys a b) ∧
       rows = cut q.lim (sortRows keys want) := by
   have hnp := (groups_iff q).1 hg
-  obtain ⟨src, fields, filtered, projected, agg, keys, hj, hwh, hproj, hag, hkeys, hcomp, rfl⟩ :=
+  obtain ⟨src, fields, filtered, projected, agg, keys, hj, hwh, hproj, hag, hkeys, hcomp, rfl, _⟩ :=
     (evaluateSelect_iff hfrom).1 h
   have hfr : Spec.fromRows fetch (.table t) = some (src, fields) := by
     rw [fromRows_table]; exact fieldsOf_iff_fetchTable.2 hj
@@ -65,7 +73,8 @@ theorem agg_single_result {fetch : Bytes → Option Table} {q : Select} {t : Tab
 /-- **one table, aggregates / GROUP BY: a meaningful query is answered**, exactly, on rows as long
 as the header and with `AVG` only over groups of equal values -/
 theorem agg_single_answered {fetch : Bytes → Option Table} {q : Select} {t : TableName}
-    (hfrom : q.from_ = some (.table t)) (hs : isStar q.list = false) (hg : groups q = true)
+    (hfrom : q.from_ = some (.table t)) (hg : groups q = true)
+    (hne : q.list ≠ []) (hb : Spec.boundsOK q.lim = true)
     (havg : ∀ src fields idxs, Spec.fromRows fetch (.table t) = some (src, fields) →
       q.groupBy.mapM (groupIdx q.list) = some idxs → AvgConst q.list fields (keyAt idxs) src)
     (hws : NoPanicP.WellShaped fetch)
@@ -80,6 +89,7 @@ theorem agg_single_answered {fetch : Bytes → Option Table} {q : Select} {t : T
   cases hf
   rw [meaning_of hfrom hfr] at hm
   obtain ⟨filtered, hsw, hst⟩ := option_bind_some.1 hm
+  have hs := specTail_groups_nostar hnp hst
   obtain ⟨hres, hsa⟩ := (specTail_nostar_iff hs).1 hst
   simp only [hnp, Bool.false_eq_true, if_false] at hsa
   have hsub := specWhere_subset hsw
@@ -87,7 +97,7 @@ theorem agg_single_answered {fetch : Bytes → Option Table} {q : Select} {t : T
   obtain ⟨hP, hC⟩ := specAgg_inv' hgi hres
     (fun r hr => fromRows_rows_length hws hfr r (hsub r hr))
     ((havg src fields idxs hfr hgi).sublist hsub) hsa
-  obtain ⟨hdr', hpc⟩ := projectColumns_of_projects hs hres hP
+  obtain ⟨hdr', hpc⟩ := projectColumns_of_projects hne hs hres hP
   have hag := (aggregate_agree hnp hres hP (fun idxs' hi => by
     rw [hgi] at hi; cases hi; exact hC)).2 hsa
   have hh : projectColumns q.list (judgeFields fetch q) [] = .ok ([], hdr') := by
@@ -96,7 +106,7 @@ theorem agg_single_answered {fetch : Bytes → Option Table} {q : Select} {t : T
   rw [evaluateSelect_iff hfrom]
   rw [fromRows_table] at hfr
   exact ⟨src, fields, filtered, _, want, keys, fieldsOf_iff_fetchTable.1 hfr,
-    specWhere_whereX hsw, hpc, hag, resolveSortKeys_iff_spec.2 hk, hcomp, rfl⟩
+    specWhere_whereX hsw, hpc, hag, resolveSortKeys_iff_spec.2 hk, hcomp, rfl, hb⟩
 
 /-- **any FROM clause, aggregates / GROUP BY: what the executor answers is the meaning**, as a
 multiset before ORDER BY: a permutation `got` of the meaning, sorted and cut -/
@@ -112,7 +122,7 @@ theorem agg_any_result {fetch : Bytes → Option Table} {q : Select} {tr : Table
       (∀ a ∈ want, ∀ b ∈ want, KeyComparable keys a b) ∧
       rows = cut q.lim (sortRows keys got) := by
   have hnp := (groups_iff q).1 hg
-  obtain ⟨srcM, fields, filteredM, projected, agg, keys, hj, hwh, hproj, hag, hkeys, hcomp, rfl⟩ :=
+  obtain ⟨srcM, fields, filteredM, projected, agg, keys, hj, hwh, hproj, hag, hkeys, hcomp, rfl, _⟩ :=
     (evaluateSelect_iff hfrom).1 h
   obtain ⟨srcS, hfr, hpsrc⟩ := fromRows_of_nestedLoopJoin fetch tr srcM fields hj
   have hswM := whereX_ok_spec (by unfold whereIsBoolean at hw; exact hw) hwh
@@ -137,7 +147,8 @@ theorem agg_any_result {fetch : Bytes → Option Table} {q : Select} {tr : Table
 header and a permutation of the meaning, sorted and cut (rows as long as the header, `AVG` only
 over groups of equal values) -/
 theorem agg_any_answered {fetch : Bytes → Option Table} {q : Select} {tr : TableRef}
-    (hfrom : q.from_ = some tr) (hs : isStar q.list = false) (hg : groups q = true)
+    (hfrom : q.from_ = some tr) (hg : groups q = true)
+    (hne : q.list ≠ []) (hb : Spec.boundsOK q.lim = true)
     (havg : ∀ src fields idxs, Spec.fromRows fetch tr = some (src, fields) →
       q.groupBy.mapM (groupIdx q.list) = some idxs → AvgConst q.list fields (keyAt idxs) src)
     (hws : NoPanicP.WellShaped fetch)
@@ -153,6 +164,7 @@ theorem agg_any_answered {fetch : Bytes → Option Table} {q : Select} {tr : Tab
   cases hf
   rw [meaning_of hfrom hfr] at hm
   obtain ⟨filteredS, hswS, hst⟩ := option_bind_some.1 hm
+  have hs := specTail_groups_nostar hnp hst
   obtain ⟨hres, hsaS⟩ := (specTail_nostar_iff hs).1 hst
   simp only [hnp, Bool.false_eq_true, if_false] at hsaS
   obtain ⟨srcM, fieldsM, hj, hfe, hpsrc⟩ := JoinP.nestedLoopJoin_perm_fromRows fetch tr srcS fields hfr
@@ -169,7 +181,7 @@ theorem agg_any_answered {fetch : Bytes → Option Table} {q : Select} {tr : Tab
   obtain ⟨got, hsaM, hpg⟩ := specAgg_perm hpf.symm hgi hres hPM hCM hsaS
   have hag := (aggregate_agree hnp hres hPM (fun idxs' hi => by
     rw [hgi] at hi; cases hi; exact hCM)).2 hsaM
-  obtain ⟨hdr', hpc⟩ := projectColumns_of_projects hs hres hPM
+  obtain ⟨hdr', hpc⟩ := projectColumns_of_projects hne hs hres hPM
   have hh : projectColumns q.list (judgeFields fetch q) [] = .ok ([], hdr') := by
     rw [judgeFields_of hfrom hfr]; exact projectColumns_header hpc
   rw [judgeHeader_of hh] at hk ⊢
@@ -177,7 +189,7 @@ theorem agg_any_answered {fetch : Bytes → Option Table} {q : Select} {tr : Tab
   rw [evaluateSelect_iff hfrom]
   exact ⟨srcM, fields, filteredM, _, got, keys, hj, specWhere_whereX hswM, hpc, hag,
     resolveSortKeys_iff_spec.2 hk,
-    fun a ha b hb => hcomp a (hpg.symm.mem_iff.1 ha) b (hpg.symm.mem_iff.1 hb), rfl⟩
+    fun a ha b hb' => hcomp a (hpg.symm.mem_iff.1 ha) b (hpg.symm.mem_iff.1 hb'), rfl, hb⟩
 
 /-! ### the hypothesis, as a test on the query alone and as a test on the data -/
 
